@@ -792,6 +792,81 @@ impl<'s> Semantics<'s> {
         Ok(())
     }
 
+    /// Loads the operands of bt/bts/btr/btc.  Returns the value that contains the selected bit,
+    /// the bit index reduced modulo the operand width, and - for a memory base - the address the
+    /// value was loaded from.
+    ///
+    /// With a register base or an immediate offset the offset is simply taken modulo the width.
+    /// With a memory base and a register offset the operand is a bit string: the (signed) offset
+    /// selects the word/doubleword/quadword at `address + size * floor(offset / width)`.
+    fn bit_test_operands(
+        &self,
+        block: &mut Block,
+    ) -> Result<(Expression, Expression, Option<Expression>), Error> {
+        let detail = self.details()?;
+        let bits = detail.operands[0].size as usize * 8;
+
+        let mut offset = self.operand_load(block, &detail.operands[1])?;
+        let bit_string = detail.operands[0].type_ == x86_op_type::X86_OP_MEM
+            && detail.operands[1].type_ == x86_op_type::X86_OP_REG;
+
+        let (base, address) = if detail.operands[0].type_ == x86_op_type::X86_OP_MEM {
+            let mut address = self
+                .mode()
+                .operand_value(&detail.operands[0], self.instruction())?;
+            if bit_string {
+                let wide = match offset.bits().cmp(&address.bits()) {
+                    std::cmp::Ordering::Less => Expr::sext(address.bits(), offset.clone())?,
+                    std::cmp::Ordering::Equal => offset.clone(),
+                    std::cmp::Ordering::Greater => Expr::trun(address.bits(), offset.clone())?,
+                };
+                let element = Expr::ashr(
+                    wide,
+                    expr_const(bits.trailing_zeros() as u64, address.bits()),
+                )?;
+                let byte_offset = Expr::shl(
+                    element,
+                    expr_const((bits / 8).trailing_zeros() as u64, address.bits()),
+                )?;
+                address = Expr::add(address, byte_offset)?;
+            }
+            let value = self.temp(2, bits);
+            block.load(value.clone(), address.clone());
+            (Expression::from(value), Some(address))
+        } else {
+            (self.operand_load(block, &detail.operands[0])?, None)
+        };
+
+        // let's ensure we have equal sorts
+        if offset.bits() != base.bits() {
+            let temp = self.temp(0, base.bits());
+            block.assign(temp.clone(), Expr::zext(base.bits(), offset.clone())?);
+            offset = temp.into();
+        }
+        let offset = Expr::and(offset, expr_const(base.bits() as u64 - 1, base.bits()))?;
+
+        Ok((base, offset, address))
+    }
+
+    /// Writes back the operand of bts/btr/btc loaded by `bit_test_operands`.
+    fn bit_test_store(
+        &self,
+        block: &mut Block,
+        address: Option<Expression>,
+        value: Expression,
+    ) -> Result<(), Error> {
+        match address {
+            Some(address) => {
+                block.store(address, value);
+                Ok(())
+            }
+            None => {
+                let detail = self.details()?;
+                self.operand_store(block, &detail.operands[0], value)
+            }
+        }
+    }
+
     /*
         BT saves the value of the bit indicated by the base (first operand) and the
         bit offset (second operand) into the carry flag.
@@ -804,22 +879,12 @@ impl<'s> Semantics<'s> {
         0F BA /4 ib BT r/m32,imm8 3/6 Save bit in carry flag
     */
     pub fn bt(&self, control_flow_graph: &mut ControlFlowGraph) -> Result<(), Error> {
-        let detail = self.details()?;
-
         // create our head block
         let block_index = {
             let block = control_flow_graph.new_block()?;
 
             // get started
-            let base = self.operand_load(block, &detail.operands[0])?;
-            let mut offset = self.operand_load(block, &detail.operands[1])?;
-
-            // let's ensure we have equal sorts
-            if offset.bits() != base.bits() {
-                let temp = self.temp(0, base.bits());
-                block.assign(temp.clone(), Expr::zext(base.bits(), offset.clone())?);
-                offset = temp.into();
-            }
+            let (base, offset, _address) = self.bit_test_operands(block)?;
 
             let temp = self.temp(0, base.bits());
             block.assign(temp.clone(), Expr::shr(base, offset)?);
@@ -848,22 +913,12 @@ impl<'s> Semantics<'s> {
         0F BA /7 ib BTC r/m32,imm8 6/8 Save bit in carry flag and complement
     */
     pub fn btc(&self, control_flow_graph: &mut ControlFlowGraph) -> Result<(), Error> {
-        let detail = self.details()?;
-
         // create our head block
         let block_index = {
             let block = control_flow_graph.new_block()?;
 
             // get started
-            let base = self.operand_load(block, &detail.operands[0])?;
-            let mut offset = self.operand_load(block, &detail.operands[1])?;
-
-            // let's ensure we have equal sorts
-            if offset.bits() != base.bits() {
-                let temp = self.temp(0, base.bits());
-                block.assign(temp.clone(), Expr::zext(base.bits(), offset.clone())?);
-                offset = temp.into();
-            }
+            let (base, offset, address) = self.bit_test_operands(block)?;
 
             // this handles the assign to CF
             let temp = self.temp(1, base.bits());
@@ -872,7 +927,7 @@ impl<'s> Semantics<'s> {
 
             let expr = Expr::shl(expr_const(1, base.bits()), offset)?;
             let expr = Expr::xor(base, expr)?;
-            self.operand_store(block, &detail.operands[0], expr)?;
+            self.bit_test_store(block, address, expr)?;
 
             block.index()
         };
@@ -897,22 +952,12 @@ impl<'s> Semantics<'s> {
         0F BA /6 ib BTR r/m32,imm8 6/8 Save bit in carry flag and reset
     */
     pub fn btr(&self, control_flow_graph: &mut ControlFlowGraph) -> Result<(), Error> {
-        let detail = self.details()?;
-
         // create our head block
         let block_index = {
             let block = control_flow_graph.new_block()?;
 
             // get started
-            let base = self.operand_load(block, &detail.operands[0])?;
-            let mut offset = self.operand_load(block, &detail.operands[1])?;
-
-            // let's ensure we have equal sorts
-            if offset.bits() != base.bits() {
-                let temp = self.temp(0, base.bits());
-                block.assign(temp.clone(), Expr::zext(base.bits(), offset.clone())?);
-                offset = temp.into();
-            }
+            let (base, offset, address) = self.bit_test_operands(block)?;
 
             // this handles the assign to CF
             let temp = self.temp(1, base.bits());
@@ -923,7 +968,7 @@ impl<'s> Semantics<'s> {
             let expr = Expr::xor(expr, expr_const(0xffff_ffff_ffff_ffff, base.bits()))?;
             let expr = Expr::and(base, expr)?;
 
-            self.operand_store(block, &detail.operands[0], expr)?;
+            self.bit_test_store(block, address, expr)?;
 
             block.index()
         };
@@ -948,22 +993,12 @@ impl<'s> Semantics<'s> {
         0F BA /5 ib BTS r/m32,imm8 6/8 Save bit in carry flag and set
     */
     pub fn bts(&self, control_flow_graph: &mut ControlFlowGraph) -> Result<(), Error> {
-        let detail = self.details()?;
-
         // create our head block
         let block_index = {
             let block = control_flow_graph.new_block()?;
 
             // get started
-            let base = self.operand_load(block, &detail.operands[0])?;
-            let mut offset = self.operand_load(block, &detail.operands[1])?;
-
-            // let's ensure we have equal sorts
-            if offset.bits() != base.bits() {
-                let temp = self.temp(0, base.bits());
-                block.assign(temp.clone(), Expr::zext(base.bits(), offset.clone())?);
-                offset = temp.into();
-            }
+            let (base, offset, address) = self.bit_test_operands(block)?;
 
             // this handles the assign to CF
             let temp = self.temp(1, base.bits());
@@ -973,7 +1008,7 @@ impl<'s> Semantics<'s> {
             let expr = Expr::shl(expr_const(1, base.bits()), offset)?;
             let expr = Expr::or(base, expr)?;
 
-            self.operand_store(block, &detail.operands[0], expr)?;
+            self.bit_test_store(block, address, expr)?;
 
             block.index()
         };
